@@ -15,9 +15,18 @@
    - C03_answers_every_schedule: for EVERY schedule of the interleaving system the history monitor for clause 301
      (C03a_mon: it remembers which request each coroutine id carries) is empty: the answer to every create /
      create-with-task / complete request is the prescribed one, whatever is interleaved, lost, retried or crashed.
-   Not proved for all schedules (hence "partial"): clause 302 (at most one "took effect" answer per id and kind);
-   it is evaluated on every implementation trace by the check (C03_mon reports 301 and 302). *)
-From RV Require Import Mon MonC01 MonC04 MonC03 SysInv PC01 PC04 PC03 PT03.
+   - C03_took_effect_once (clause 302 at store level): over the whole life of a database - any number of batches of
+     any transactions of accepted commands, failed batches rolled back - no id is reported created twice and no id
+     is reported completed twice (rows affected <> 0), nothing that exists is reported created, nothing completed is
+     reported completed.  C03_created_needs_report / C03_completed_needs_report: the create / complete coroutines
+     answer 201 ONLY when resumed with such a report for the id of their request.
+   - C03_at_most_one_takes_effect_every_schedule (clause 302 at trace level): for EVERY schedule of the interleaving
+     system the history monitor C03b_mon (it remembers which request each coroutine id carries and which (kind, id)
+     were already answered 201) is empty: a report lives in one completion slot of the completion queue or, once
+     turned into an answer, in the monitor's list - never in two places - and a second report of the same kind for
+     the same id cannot be produced (Proofs/PT03b.v).
+   C03_mon (301 and 302 in one monitor) is evaluated on every implementation trace as well. *)
+From RV Require Import Mon MonC01 MonC04 MonC03 SysInv PC01 PC04 PC03 PT03 StorePromises PC03once PT03b.
 
 Theorem C03_rows : forall cfg sch, sch_wf sch -> C01_mon (events cfg sch) = [] /\ C04_mon_partial (events cfg sch) = [].
 Proof. intros cfg sch H. split; [exact (C01_trace cfg sch H)|exact (C04_trace_partial cfg sch H)]. Qed.
@@ -40,6 +49,29 @@ Print Assumptions C03_complete_answers.
 Theorem C03_answers_every_schedule : forall cfg sch, sch_wf sch -> C03a_mon (events cfg sch) = [].
 Proof. exact C03a_trace. Qed.
 Print Assumptions C03_answers_every_schedule.
+
+Theorem C03_at_most_one_takes_effect_every_schedule : forall cfg sch, sch_wf sch -> C03b_mon (events cfg sch) = [].
+Proof. exact C03b_trace. Qed.
+Print Assumptions C03_at_most_one_takes_effect_every_schedule.
+
+Theorem C03_took_effect_once : forall bs, Forall batch_accepted bs ->
+    NoDup (snd (life db0 bs)) /\
+    forall d, prom_uniq d -> (forall id, In (true, id) (snd (life d bs)) -> forall q, In q (promises d) -> p_id q <> id) /\
+                             (forall id, In (false, id) (snd (life d bs)) -> forall q, In q (promises d) -> p_id q = id -> p_state q = Pending).
+Proof. exact took_effect_once. Qed.
+Print Assumptions C03_took_effect_once.
+
+Theorem C03_created_needs_report : forall cfg k c now next r rsp,
+    kcreate k r -> o_resp (resume_seq cfg k c now next) = Some rsp -> status_of rsp = 20100 ->
+    reports c = true /\ exists tc0 wt pc tc, k = KCreate_store r tc0 wt pc tc /\ cp_id pc = cpr_id r.
+Proof. exact created_needs_report. Qed.
+Print Assumptions C03_created_needs_report.
+
+Theorem C03_completed_needs_report : forall cfg k c now next r rsp,
+    kcomplete k r -> o_resp (resume_seq cfg k c now next) = Some rsp -> status_of rsp = 20100 ->
+    reports c = true /\ exists p cmd, k = KComplete_up r p cmd 20100 /\ up_state cmd = cmr_state r.
+Proof. exact completed_needs_report. Qed.
+Print Assumptions C03_completed_needs_report.
 
 Theorem C03_start : forall now next k n,
     (forall r, o_state (start_req (QCreatePromise r) now next) = CSeq k n -> kcreate k r) /\
@@ -87,5 +119,15 @@ Definition bad_trace : list (directive * list obs) :=
   [ (DTick 1 [] [] [("a"%string, QCreatePromise (cr (Some "k1"%string) false))], [OInst "a" [] (Some (RspPromise 20100 (Some prow)))]);
     (DTick 2 [] [] [("b"%string, QCreatePromise (cr (Some "k2"%string) false))], [OInst "b" [] (Some (RspPromise 20000 (Some prow)))]);
     (DTick 3 [] [] [("c"%string, QCreatePromise (cr (Some "k1"%string) false))], [OInst "c" [] (Some (RspPromise 20100 (Some prow)))]) ].
-Example C03_monitor_detects : C03_mon bad_trace = [(301, 1%nat); (302, 2%nat)] /\ C03a_mon bad_trace = [(301, 1%nat)].
-Proof. vm_compute. split; reflexivity. Qed.
+Example C03_monitor_detects : C03_mon bad_trace = [(301, 1%nat); (302, 2%nat)] /\ C03a_mon bad_trace = [(301, 1%nat)] /\
+                              C03b_mon bad_trace = [(302, 2%nat)] /\ C03b_mon (events cfg_ex sch_ex) = [].
+Proof. vm_compute. repeat split; reflexivity. Qed.
+
+(* non-vacuity of C03_took_effect_once: a life with a failed batch, a repeated create and a repeated completion *)
+Definition cp_ex : create_promise_cmd := mkCP "p" [] "d" 100 None [] 1.
+Definition up_ex (st : Z) : update_promise_cmd := mkUP "p" st [] "v" None 5.
+Example C03_life_example :
+  snd (life db0 [ [([CreatePromise cp_ex], [])]; [([CreatePromise cp_ex], []); (completion_txn (up_ex Resolved) 5, [])];
+                  [(completion_txn (up_ex Rejected) 6, [])] ]) = [(true, "p"%string); (false, "p"%string)] /\
+  Forall batch_accepted [ [([CreatePromise cp_ex], [])]; [(completion_txn (up_ex Resolved) 5, [])] ].
+Proof. split; [vm_compute; reflexivity|repeat constructor]. Qed.
